@@ -190,4 +190,40 @@ Definition appheading_res (ah : ang) (pos : vec) (q : quat) (b : vec) : K :=
   turn_res ah (xy (vsub o pos b)) (xy (forward q)).
 Definition appheading_dot (ah : ang) (pos : vec) (q : quat) (b : vec) : K :=
   turn_dot ah (xy (vsub o pos b)) (xy (forward q)).
+
+(* ------------------------------------------------------------------ vector fields (round 2) *)
+(* A vector field gives an orientation at every point (VectorField.__getitem__). *)
+(* facing <field>: headingAtPos = F pos; local angles are the Euler angles of parent^-1 * F pos
+   (Facing, vector-field branch); the resulting global orientation is parent * (parent^-1 * F pos) *)
+Definition facing_field_local (parent : quat) (F : vec -> quat) (pos : vec) : quat :=
+  qmul o (qconj o parent) (F pos).
+Definition facing_field_orientation (parent : quat) (F : vec -> quat) (pos : vec) : quat :=
+  qmul o parent (facing_field_local parent F pos).
+(* X relative to Y with (at least one) field: evaluated at the object's position, Y[pos] * X[pos] *)
+Definition relative_to_field (X Y : vec -> quat) (pos : vec) : quat := relative_to_orient (X pos) (Y pos).
+(* X offset along <field> by V: the field is evaluated at X *)
+Definition offset_along_field (x : vec) (F : vec -> quat) (v : vec) : vec := offset_along x (F x) v.
+(* VectorField.followFrom: n forward-Euler steps of signed length step along the field's forward axis *)
+Definition follow_step (q : quat) (step : K) (pos : vec) : vec := vadd o pos (rotate o q (O0, step, O0)).
+Fixpoint follow (F : vec -> quat) (n : nat) (step : K) (pos : vec) : vec :=
+  match n with O => pos | S n' => follow F n' step (follow_step (F pos) step pos) end.
+(* the positions at which the field is evaluated *)
+Fixpoint visited (F : vec -> quat) (n : nat) (step : K) (pos : vec) : list vec :=
+  match n with O => [] | S n' => pos :: visited F n' step (follow_step (F pos) step pos) end.
+(* executable form: the field's values at the visited positions are given *)
+Fixpoint follow_rec (qs : list quat) (step : K) (pos : vec) : vec :=
+  match qs with [] => pos | q :: r => follow_rec r step (follow_step q step pos) end.
+(* following F [from X] for D / follow F from X for D: position and parentOrientation *)
+Definition following (F : vec -> quat) (n : nat) (step : K) (x : vec) : vec * quat :=
+  let p := follow F n step x in (p, F p).
+
+(* ------------------------------------------------------------------ on (round 2) *)
+(* On: contactOffset = (0,0,contactTolerance/2) - baseOffset, rotated by the surface orientation when the
+   target provides one; position = surface point + contactOffset *)
+Definition on_offset (ct : K) (base : vec) : vec := vsub o (O0, O0, half ct) base.
+Definition on_pos (p : vec) (q : quat) (ct : K) (base : vec) : vec * quat :=
+  (vadd o p (rotate o q (on_offset ct base)), q).
+Definition on_pos_plain (p : vec) (ct : K) (base : vec) : vec := vadd o p (on_offset ct base).
+(* Object.baseOffset default *)
+Definition default_base (dims : vec) : vec := (O0, O0, - half (vz dims)).
 End Geometry.
